@@ -165,7 +165,7 @@ theorem remoteOf_sane {a : Agent} {L : Log} (h : AInv Good Sane SaneR tag lite (
 theorem view_sendRequest (a : Agent) (now : Nat) (l r : Cand) (uc : Bool) (nom : Option Nat) :
     view (a.sendRequest now l r uc nom).1 =
       { view a with nextTid := a.nextTid + 1,
-                    pend := (a.pending.filter fun p => now - p.ts < maxBindingRequestTimeout).map pdv ++ [(2 * a.nextTid + a.tag, r.addr)] } := by
+                    pend := (a.pending.filter fun p => now - p.ts < maxBindingRequestTimeout).map pdv ++ [(2 * a.nextTid + a.tag, l.addr, r.addr)] } := by
   unfold Agent.sendRequest
   simp only [view_seenLocalSent]
   split
@@ -482,7 +482,7 @@ theorem foldl_inv_mem {α β : Type} (P : β → Prop) (f : β → α → β) (l
 
 theorem view_addPair (a : Agent) (l r : Cand) :
     view (a.addPair l r).1 =
-      { view a with nextPairID := a.nextPairID + 1, pairs := (view a).pairs ++ [⟨a.nextPairID + 1, l.uid, r.uid, false⟩] } := by
+      { view a with nextPairID := a.nextPairID + 1, pairs := (view a).pairs ++ [⟨a.nextPairID + 1, l.uid, r.uid, false, false⟩] } := by
   simp [view, Agent.addPair, pv]
 
 theorem addPair_inv {a : Agent} {L : Log} (h : AInv Good Sane SaneR tag lite (view a) L) (l r : Cand)
@@ -585,7 +585,7 @@ theorem replaceRemoteInPairs_post {a : Agent} {L : Log} (h : AInv Good Sane Sane
         intro q; rw [← hf]; rfl
       have hb1 : AInv Good Sane SaneR tag lite (view (b.modPair id f)) (L ++ reqs o) := by
         rw [hv]
-        refine hb.1.updPair id _ (fun _ => rfl) (fun _ => rfl) ?_ ?_ (fun _ _ _ hs => hs)
+        refine hb.1.updPair id _ (fun _ => rfl) (fun _ => rfl) ?_ ?_ (fun _ _ _ hs => hs) ?_
         · intro q _ _
           show c.uid < (view b).nextUid
           rw [hst.2]; exact hc
@@ -596,6 +596,20 @@ theorem replaceRemoteInPairs_post {a : Agent} {L : Log} (h : AInv Good Sane Sane
           intro x hx
           show x = ra
           have hra : A = ra := by
+            apply hr1
+            rw [hq']
+            show addrOf (view b).rems p.r = some A
+            rw [hpr', hst.1]; exact h1
+          rw [← hra]
+          apply h2
+          rw [← hst.1]; exact hx
+        · intro q hq hqid hqr
+          have hq' : q = pv p := pv_eq_of_id hb.1.pairUniq hq (pairById_pv_mem hp).1 (by rw [hqid, (pairById_pv_mem hp).2])
+          obtain ⟨e, he, hl1, hr1⟩ := hb.1.respOK q hq hqr
+          refine ⟨e, he, hl1, ?_⟩
+          intro x hx
+          show x = e.2.2
+          have hra : A = e.2.2 := by
             apply hr1
             rw [hq']
             show addrOf (view b).rems p.r = some A
@@ -848,14 +862,15 @@ theorem addrOf_rems_of_remoteOf {a : Agent} {u : Nat} {c : Cand} (h : a.remoteOf
   have : findCand a.remotes u = some c := h
   rw [this]; rfl
 
-/-- marking the pair found by `findPair l r` Succeeded, given that `(l.addr, r.addr)` is `Good` (full agents). -/
+/-- marking the pair found by `findPair l r` Succeeded with a response of its own, given that `(l.addr, r.addr)`
+is `Good` (full agents) and that a request from `l.addr` to `r.addr` is logged. -/
 theorem markSucceeded_inv {a : Agent} {L : Log} (h : AInv Good Sane SaneR tag lite (view a) L) {l r : Cand} {p : Pair}
-    (hp : a.findPair l r = some p) (f : Pair → Pair) (hf : ∀ q, pv (f q) = { pv q with succ := true })
-    (hg : lite = false → Good l.addr r.addr) :
+    (hp : a.findPair l r = some p) (f : Pair → Pair) (hf : ∀ q, pv (f q) = { pv q with succ := true, resp := true })
+    (hg : lite = false → Good l.addr r.addr) (hown : ∃ e ∈ L, e.2.1 = l.addr ∧ e.2.2 = r.addr) :
     AInv Good Sane SaneR tag lite (view (a.modPair p.id f)) L := by
-  rw [view_modPair_upd a p.id f (fun q => { q with succ := true }) hf]
+  rw [view_modPair_upd a p.id f (fun q => { q with succ := true, resp := true }) hf]
   obtain ⟨hpm, pl, pr, hpl, hpr, hla, hra⟩ := findPair_spec hp
-  refine h.updPair p.id _ (fun _ => rfl) (fun _ => rfl) ?_ ?_ (fun _ _ _ _ => rfl)
+  refine h.updPair p.id _ (fun _ => rfl) (fun _ => rfl) ?_ ?_ (fun _ _ _ _ => rfl) ?_
   · intro q hq _
     exact (h.pairUid q hq).2
   · intro hl q hq hqid _
@@ -874,19 +889,36 @@ theorem markSucceeded_inv {a : Agent} {L : Log} (h : AInv Good Sane SaneR tag li
       simp only [e] at hx
       rw [this] at hx
       rw [← hra]; exact (Option.some.inj hx).symm
+  · intro q hq hqid _
+    have hq' : q = pv p := pv_eq_of_id h.pairUniq hq (mem_checklist_pv hpm) hqid
+    obtain ⟨e, he, he1, he2⟩ := hown
+    refine ⟨e, he, ?_, ?_⟩
+    · intro x hx
+      rw [hq'] at hx
+      have := addrOf_locs_of_localOf hpl
+      have e' : (pv p).l = p.l := rfl
+      rw [e', this] at hx
+      rw [he1, ← hla]; exact (Option.some.inj hx).symm
+    · intro x hx
+      rw [hq'] at hx
+      have := addrOf_rems_of_remoteOf hpr
+      have e' : (pv p).r = p.r := rfl
+      simp only [e'] at hx
+      rw [this] at hx
+      rw [he2, ← hra]; exact (Option.some.inj hx).symm
 
 theorem succ_pair_after_mark {a : Agent} {l r : Cand} {p : Pair} (hp : a.findPair l r = some p) (f : Pair → Pair)
-    (hf : ∀ q, pv (f q) = { pv q with succ := true }) :
+    (hf : ∀ q, pv (f q) = { pv q with succ := true, resp := true }) :
     ∃ q ∈ (view (a.modPair p.id f)).pairs, q.id = p.id ∧ q.succ = true := by
-  rw [view_modPair_upd a p.id f (fun q => { q with succ := true }) hf]
-  refine ⟨{ pv p with succ := true }, ?_, rfl, rfl⟩
+  rw [view_modPair_upd a p.id f (fun q => { q with succ := true, resp := true }) hf]
+  refine ⟨{ pv p with succ := true, resp := true }, ?_, rfl, rfl⟩
   show _ ∈ updPV (view a).pairs p.id _
   unfold updPV
   exact List.mem_map.mpr ⟨pv p, mem_checklist_pv (findPair_spec hp).1, by simp [pv]⟩
 
 theorem handleSuccess_post {a : Agent} {L : Log} (h : AInv Good Sane SaneR tag lite (view a) L) (now : Nat) (m : Msg)
     (l r : Cand) (src : Nat) (hr : r.addr = src)
-    (hresp : lite = false → ∀ f, (m.tid, f, src) ∈ L → Good l.addr src) :
+    (hresp : lite = false → (m.tid, l.addr, src) ∈ L → Good l.addr src) :
     Post Good Sane SaneR tag lite R L (a.handleSuccess now m l r src) := by
   obtain ⟨⟨pend', hv0, hsub⟩, hpd⟩ := takePending_spec a now m.tid
   unfold Agent.handleSuccess
@@ -903,21 +935,26 @@ theorem handleSuccess_post {a : Agent} {L : Log} (h : AInv Good Sane SaneR tag l
     · rename_i hcond
       have hdest : pd.dest = src := by
         simp at hcond
+        exact hcond.1.2
+      have hsrc : pd.src = l.addr := by
+        simp at hcond
         exact hcond.2
+      -- K3: the consumed transaction is a logged request from THIS local address to the response's source
+      have hlog : (m.tid, l.addr, src) ∈ L := by
+        have hf := h.pendOK (pdv pd) (List.mem_map.mpr ⟨pd, hpdm, rfl⟩)
+        have : pdv pd = (m.tid, l.addr, src) := by simp [pdv, hpdt, hdest, hsrc]
+        rw [this] at hf
+        exact hf
       split
       · exact Post.ret h0
       · rename_i p hp
         have hg : lite = false → Good l.addr r.addr := by
           intro hl
-          obtain ⟨f, hf⟩ := h.pendOK (pdv pd) (List.mem_map.mpr ⟨pd, hpdm, rfl⟩)
           rw [hr]
-          apply hresp hl f
-          have : pdv pd = (m.tid, src) := by simp [pdv, hpdt, hdest]
-          rw [this] at hf
-          exact hf
+          exact hresp hl hlog
         generalize hfdef : (fun (q : Pair) => ({ q with state := .succeeded, gResp := true, gRespUC := q.gRespUC || pd.useCand } : Pair)) = f
-        have hf : ∀ q, pv (f q) = { pv q with succ := true } := by intro q; rw [← hfdef]; rfl
-        have h1 := markSucceeded_inv h0 hp f hf hg
+        have hf : ∀ q, pv (f q) = { pv q with succ := true, resp := true } := by intro q; rw [← hfdef]; rfl
+        have h1 := markSucceeded_inv h0 hp f hf hg ⟨_, hlog, rfl, hr.symm⟩
         have hsp := succ_pair_after_mark hp f hf
         generalize hX : (if (a0.modPair p.id f).controlling = true then _ else _ : Agent × List Out) = X
         have hXp : Post Good Sane SaneR tag lite R L X := by
@@ -1037,6 +1074,7 @@ theorem cldNom_post {a : Agent} {L : Log} (h : AInv Good Sane SaneR tag lite (vi
         have hl : lite = true := by rw [← h.lite_eq]; exact hlite
         rw [view_modPair_upd a id _ (fun q => { q with succ := true }) (fun q => rfl)]
         refine h.updPair id _ (fun _ => rfl) (fun _ => rfl) (fun q hq _ => (h.pairUid q hq).2) ?_ (fun _ _ _ _ => rfl)
+          (fun q hq _ hqr => h.respOK q hq hqr)
         intro hf; rw [hl] at hf; cases hf
       · exact h
     split
@@ -1209,7 +1247,7 @@ theorem hiAfter_post {a : Agent} {L : Log} {o0 : List Out} (h : Post Good Sane S
 
 theorem handleInbound_post {a : Agent} {L : Log} (h : AInv Good Sane SaneR tag lite (view a) L) (now : Nat) (l : Cand)
     (src : Nat) (m : Msg) (hl : Sane l.addr) (hlu : l.uid < a.nextUid)
-    (hresp : m.cls = 2 → lite = false → ∀ f, (m.tid, f, src) ∈ L → Good l.addr src)
+    (hresp : m.cls = 2 → lite = false → (m.tid, l.addr, src) ∈ L → Good l.addr src)
     (hsrc : m.cls = 0 → SaneR src) :
     Post Good Sane SaneR tag lite (fun f t tid => m.cls = 0 ∧ f = l.addr ∧ t = src ∧ tid = m.tid) L (a.handleInbound now l src m) := by
   rw [handleInbound_eq]
@@ -1407,7 +1445,7 @@ theorem step_post {a : Agent} {L : Log} (h : AInv Good Sane SaneR tag lite (view
     (hadd : ∀ now c, e = .addLocal now c → Sane c.addr)
     (haddR : ∀ now c, e = .addRemote now c → SaneR c.addr)
     (hresp : ∀ now la src m, e = .inbound now la src m → m.cls = 2 → lite = false →
-      ∀ f, (m.tid, f, src) ∈ L → Good la src)
+      (m.tid, la, src) ∈ L → Good la src)
     (hsrc : ∀ now la src m, e = .inbound now la src m → m.cls = 0 → SaneR src) :
     Post Good Sane SaneR tag lite (Rof e) L (step a e) := by
   cases e with
